@@ -30,7 +30,7 @@ SEQ = {
 checks = []
 for pid in sorted(list(ENGINE_TEXT) + [p for p in SEQ if os.path.exists(os.path.join(V, "lib", "check_%s.py" % p.lower()))]):
     if pid in ENGINE_TEXT:
-        text, engine, tech = ENGINE_TEXT[pid], "engine-trace", "TLA+ clauses (Props.tla) checked by TLC on traces recorded from the real engine + TLC model checking of Engine.tla"
+        text, engine, tech = ENGINE_TEXT[pid], "engine-trace", "explicit TLA+ specification of the engine (Engine.tla) model-checked by TLC with the property clauses (Props.tla) as invariant; bound to the code in both directions: TLC-generated behaviours replayed into the real engine, every recorded trace validated by TLC against the clauses (EngineTrace.tla) and a sample of live and crash-recovery traces against Engine.tla itself (EngineConf.tla)"
         note = "trusted: TLC, the recorder (one mutex, events logged after the write returned / at plugin entry), sqlite in-memory vault as storage; bounded scenario families; known findings in known_findings.json"
     else:
         text, engine, tech = SEQ[pid][1], "seq-replay", "TLA+ model (%s) as reference semantics; TLC-generated cases replayed on the real code, reply compared after every step" % SEQ[pid][0]
